@@ -119,6 +119,7 @@ type Machine struct {
 	mapRangeUsed int
 
 	sharedCovered func(string) bool
+	concreteInputs map[string]string
 
 	sumCache  map[sumKey]*sumEntry
 	sumBad    map[*ssa.Function]bool
